@@ -186,8 +186,10 @@ def run(ctx, res):
             continue
         target = own
         # by the format: header, the text length (big endian), two zero bytes, then the whole stream — which must decode to the text
-        stream = ab[8:]
-        if ab[:4] != b':c:\x00' or (ab[4] << 8 | ab[5]) != len(code) or len(stream) != target or refstream.ref_decode(stream) != with_suffix(c, code):
+        # (the area is 0x3d00 bytes: after the stream come zero bytes up to its end)
+        stream, padding = ab[8:8 + own], ab[8 + own:]
+        if ab[:4] != b':c:\x00' or (ab[4] << 8 | ab[5]) != len(code) or len(stream) != target or any(padding) or len(ab) != C04.AREA \
+                or refstream.ref_decode(stream) != with_suffix(c, code):
             res.fail(key, 'the code area written for a compressed stream of %d bytes is not header + length + the complete stream '
                           '(stream bytes present: %d; decodes to the text: %s)' % (target, len(stream), refstream.ref_decode(stream) == with_suffix(c, code)), inp)
     # histories: compress_code is a function of the text's current bytes — the same text twice with the first result scribbled over in
